@@ -284,6 +284,12 @@ func SameValue(a, b ssa.Value) bool {
 	if a == b {
 		return true
 	}
+	// two computations of the same element address (go/ssa does no CSE): &arr[i] twice with the same base and index
+	if ia, ok := a.(*ssa.IndexAddr); ok {
+		if ib, ok := b.(*ssa.IndexAddr); ok && ia.Index == ib.Index && (ia.X == ib.X || SameValue(ia.X, ib.X)) {
+			return true
+		}
+	}
 	la, ok1 := a.(*ssa.UnOp)
 	lb, ok2 := b.(*ssa.UnOp)
 	if ok1 && ok2 && la.Op == token.MUL && lb.Op == token.MUL {
